@@ -14,7 +14,7 @@ import (
 	"github.com/acekingke/yaccgo/verifsim/wl"
 )
 
-// every printable ASCII character yaccgo can lex as a literal ('\'' via its escape; backslash itself cannot be written)
+// every printable ASCII character yaccgo can lex as a literal ('\” via its escape; backslash itself cannot be written)
 func hazardLits() []byte {
 	var b []byte
 	for c := byte(33); c < 127; c++ {
@@ -252,7 +252,7 @@ func execC16(ctx *Ctx, in *Input) *Result {
 func init() {
 	Register(&Checker{
 		ID: "C16", Level: "exploration", Engine: "B",
-		Rule: "case = batch of grammars x 5 variants, generated under one map-order schedule with exactly the prologue and epilogue the statement names (package clause + import fmt; GetToken); half of the grammars are 'wide': any printable character as a literal token, rules of 0-13 symbols with actions using $1..$13, every tag shape, declared and use-only literals. Every output yaccgo reports success for is compiled by the real go build (-gcflags=-e), TypeScript outputs are type-erased and loaded by node. distinct_nontrivial = distinct output files compiled.",
+		Rule:     "case = batch of grammars x 5 variants, generated under one map-order schedule with exactly the prologue and epilogue the statement names (package clause + import fmt; GetToken); half of the grammars are 'wide': any printable character as a literal token, rules of 0-13 symbols with actions using $1..$13, every tag shape, declared and use-only literals. Every output yaccgo reports success for is compiled by the real go build (-gcflags=-e), TypeScript outputs are type-erased and loaded by node. distinct_nontrivial = distinct output files compiled.",
 		NumCases: func(ctx *Ctx) int { return fixedCases(ctx, 32, 1200) },
 		Gen:      genC16, Exec: execC16,
 		Probes: []string{"outputs_compiled_go", "outputs_compiled_ts"},
